@@ -69,8 +69,23 @@ def gen_sweep(seed, tier):
     return {"seed": seed, "mode2": "sweep", "world": w, "cfg": cfg, "dist": dist}
 
 
+class _ZeroBudget(BaseException):
+    pass
+
+
+_budget = {"n": 0, "max": 3_000_000}
+
+
+def _count_step(altitude):
+    _budget["n"] += 1
+    if _budget["n"] > _budget["max"]:
+        raise _ZeroBudget()
+
+
 def _zero_once(case, cfg, how="zero"):
     pb = lib.pb
+    _budget["n"] = 0
+    lib.set_step_hook(_count_step)          # deterministic liveness budget: integration steps per zeroing call
     b = Builder(case["world"], shared=True, seam=True)
     shot = b.shot(0)
     pre = float(shot.weapon.zero_elevation.raw_value).hex()
@@ -90,6 +105,8 @@ def _zero_once(case, cfg, how="zero"):
     except pb.RangeError as e:
         out["kind"] = "RangeError"
         out["reason"] = e.reason
+    except _ZeroBudget:
+        out["kind"] = "budget"
     except Exception as e:  # noqa
         out["kind"] = "other:" + type(e).__name__
     out["pre"] = pre
@@ -110,6 +127,9 @@ def _sweep(case, only=None):
 
     base = dict(case["cfg"])
     ref, shot, calc, b = _zero_once(case, dict(base, cMaxIterations=200))
+    if ref["kind"] == "budget":
+        bad("liveness.step_budget", "reference", f"zeroing did not end within {_budget['max']} integration steps", ["ref"])
+        return {"violations": viol, "stats": stats, "digest": sha(["budget"]), "ref_kind": "budget"}
     h = [ref["kind"], ref.get("value")]
     acc = base.get("cZeroFindingAccuracy", 5e-6)
     if ref["kind"] == "ok" and ref["post"] != ref["value"]:
@@ -145,6 +165,8 @@ def _sweep(case, only=None):
                     bad("error.untruthful_payload", "cap", f"cap {k}: error {out['error']} <= accuracy {acc}", [k])
                 if out["iterations"] > k:
                     bad("error.untruthful_payload", "cap", f"cap {k}: reports {out['iterations']} iterations", [k])
+            elif out["kind"] == "budget":
+                bad("liveness.step_budget", "cap", f"cap {k}: zeroing did not end within its step budget", [k])
             elif out["kind"].startswith("other"):
                 bad("outcome.other_exception", "cap", f"cap {k}: {out['kind']}", [k])
             elif out["kind"] == "RangeError" and ref["kind"] == "ok":
